@@ -45,7 +45,7 @@ m = {
         {"name": "hivemon", "path": "hivemon/", "serves_properties": sorted(IMPLEMENTED), "kind_free_text": "runtime monitoring: seeded scenario generator + hostile/systematic drivers running the real hive pipeline under harness-side hooks; per-property monitors (invariants, ledgers, reference models, differential executions)"}
     ],
     "checks": [],
-    "notes": "See DESIGN.md. Verdicts are three-valued: exit 0 held-on-observed, exit 1 VIOLATION, exit 2 INCONCLUSIVE (coverage floor missed or worker problem). 18 genuine defects were repaired in /repo as fix: commits (known_findings.json 'fixed' records).",
+    "notes": "See DESIGN.md. Verdicts are three-valued: exit 0 held-on-observed, exit 1 VIOLATION, exit 2 INCONCLUSIVE (coverage floor missed or worker problem). 19 genuine defects were repaired in /repo as fix: commits (known_findings.json 'fixed' records).",
     "not_applicable": [],
 }
 for pid in sorted(CHECKS):
